@@ -717,6 +717,10 @@ func c18Cfg(r *Rng) Cfg {
 
 // C18: generic API as a faithful typed view of the ID-based core.
 func caseC18(c *Ctx) {
+	if c.Mode == "resource" {
+		caseC18Resource(c)
+		return
+	}
 	cfg := c18Cfg(c.R)
 	p := DefaultProfile()
 	p.Steps = 200
